@@ -5,6 +5,6 @@ cd /verif/coq || exit 2
 IDS="$*"; [ -n "$IDS" ] || IDS="C01 C02 C03 C04 C05 C06 C07 C08 C09 C10 C11 C12 C13 C14 C15 C16 C17 C18 C19 C20"
 printf '%s\n' $IDS | xargs -P 6 -I{} sh -c '
   t0=$(date +%s)
-  out=$(timeout 3400 coqchk -silent -o -Q theories Scrapli -Q props ScrapliProps ScrapliProps.{} 2>&1); rc=$?
+  out=$(timeout 9000 coqchk -silent -o -Q theories Scrapli -Q props ScrapliProps ScrapliProps.{} 2>&1); rc=$?
   ax=$(printf "%s\n" "$out" | awk "/\\* Axioms:/{f=1;sub(/.*Axioms: */,\"\");print;next} /^\\* /{f=0} f" | tr -s " \n" " ")
   echo "{} $(( $(date +%s) - t0 ))s rc=$rc axioms=[$ax]"'
